@@ -125,8 +125,24 @@ func specRange(s *GenSpec) (signed bool, lo, hi int64, ulo, uhi uint64) {
 	return false, 0, 0, ulo, uhi
 }
 
+// safeBuild constructs the generator of a scenario; a constructor that panics on parameters its documentation allows
+// is recorded (the generator cannot produce a single value of its contract), not a reason for the harness to die.
+func safeBuild(rec *Recorder, r *Runner, sc *ReachScenario) (b *Built) {
+	defer func() {
+		if p := recover(); p != nil {
+			b = nil
+			rec.Resume()
+			rec.Emit("genpanic", F{"gen": sc.Gen.K, "min": sc.Gen.Min, "max": sc.Gen.Max, "msg": Digest(fmt.Sprint(p))})
+		}
+	}()
+	return (&GenEnv{cache: map[*GenSpec]*Built{}, run: r}).Build(sc.Gen)
+}
+
 func reachInts(t *testing.T, rec *Recorder, r *Runner, sc *ReachScenario) {
-	b := (&GenEnv{cache: map[*GenSpec]*Built{}, run: r}).Build(sc.Gen)
+	b := safeBuild(rec, r, sc)
+	if b == nil {
+		return
+	}
 	reached := map[string]bool{}
 	fz := rapid.MakeFuzz(func(rt *rapid.T) { reached[valKey(b.G.Draw(rt, "v"))] = true })
 	signed, lo, hi, ulo, uhi := specRange(sc.Gen)
@@ -248,7 +264,10 @@ func reachInts(t *testing.T, rec *Recorder, r *Runner, sc *ReachScenario) {
 
 // reachFloats: a float range of a few dozen adjacent values (the harness enumerates them with Nextafter): every one of them can be drawn.
 func reachFloats(rec *Recorder, r *Runner, sc *ReachScenario) {
-	b := (&GenEnv{cache: map[*GenSpec]*Built{}, run: r}).Build(sc.Gen)
+	b := safeBuild(rec, r, sc)
+	if b == nil {
+		return
+	}
 	is32 := strings.HasPrefix(sc.Gen.K, "Float32")
 	lo, hi := parseFloat(sc.Gen.Min), parseFloat(sc.Gen.Max)
 	key := func(f float64) string {
@@ -294,7 +313,10 @@ func reachFloats(rec *Recorder, r *Runner, sc *ReachScenario) {
 }
 
 func edgeHits(rec *Recorder, r *Runner, sc *ReachScenario) {
-	b := (&GenEnv{cache: map[*GenSpec]*Built{}, run: r}).Build(sc.Gen)
+	b := safeBuild(rec, r, sc)
+	if b == nil {
+		return
+	}
 	rec.Pause()
 	first := map[string]int{}
 	hit := func(name string, i int) {
